@@ -209,6 +209,10 @@ class History:
                 clause = 'task_died_F21'      # the shape of known finding F21 (C03): classified, see check.py
             self.fails.append((clause, f'phase {phase}: the server task "{name}" ended with {exc!r}'))
             return
+        for got_h, snap_h in w.mp_height_mismatch[:1]:
+            self.fails.append(('mempool_height', f'phase {phase}: a mempool refresh whose snapshot of the daemon\'s mempool was taken '
+                                                 f'at height {snap_h} was handed to Notifications.on_mempool as a refresh at height '
+                                                 f'{got_h} (a block was processed while the refresh was fetching)'))
         if not w.quiescent():
             self.fails.append(('harness', f'phase {phase}: not quiescent'))
             return
